@@ -465,8 +465,10 @@ def run_check(spec: Spec, tier: str, seed: int, replay_path: str | None = None) 
         "wall_s": round(wall, 2),
         "violations": len(violations),
     }
-    EVIDENCE.mkdir(exist_ok=True)
-    (EVIDENCE / f"{spec.prop_id}.json").write_text(json.dumps(ev, indent=1, default=str))
+    # developer runs (replays, reduced case counts) can keep the committed evidence of the last full run
+    evdir = Path(os.environ["VERIF_EVIDENCE_DIR"]) if os.environ.get("VERIF_EVIDENCE_DIR") else EVIDENCE
+    evdir.mkdir(exist_ok=True, parents=True)
+    (evdir / f"{spec.prop_id}.json").write_text(json.dumps(ev, indent=1, default=str))
     for l in known_lines:
         print(l)
     for v in violations:
